@@ -28,7 +28,7 @@ def c13():
     # (b) adversarial serialized forms
     for n in (0, 1, 2, 3):
         j.append(K("c13_serde::c13_window_adv_len%d" % n,
-                   TOK + "hand-built {buf: %d symbolic u8 elements, index: any u64}: Err iff index >= len (len 0: always Err), never a panic; Ok => equals from_parts(buf, index)" % n,
+                   TOK + "hand-built {buf: %d symbolic u8 elements, index: any u64}: Err iff index >= len (len 0: only index 0, the serialized empty window, is accepted), never a panic; Ok => equals from_parts(buf, index)" % n,
                    features=F, stubbing=True, encodes=WDE, cost=30, timeout=600))
         j.append(K("c13_serde::c13_window_advswap_len%d" % n,
                    TOK + "same with the fields in the order {index, buf} (struct handed to the derived visitor as a map keyed by name), len %d" % n,
@@ -61,9 +61,43 @@ def c13():
     return j
 
 
+X_ENC = ["src/core/window.rs: impl Serialize for Window, impl Deserialize for Window (interpreted from source), Window::from_parts/push/index",
+         "src/methods/smm.rs: impl Serialize for SMM, impl Deserialize for SMM (interpreted from source)", "src/methods/*.rs: new/next of the named method"]
+
+
+def x_jobs():
+    import c09
+    j = []
+    F = ("serde",)
+    for m in c09.METHODS + c09.SELECT + ["MedianAbsDev"]:
+        n = 2 if m in ("HMA", "LinReg", "StDev") else 1
+        mode = {"mode": "fp"} if m in c09.SELECT else {}
+        for (nn, jj, t) in ((max(n, 3), 2, 4), (max(n, 2), 3, 5)):
+            a = {"kind": m, "n": nn, "j": jj, "t": t}
+            a.update(mode)
+            j.append(X("c13_method", a, "%s length %d: snapshot after %d symbolic steps (ring phase %d), real Window Serialize/Deserialize bodies interpreted, derived impls field-wise; original and restored instance agree bit for bit on %d further symbolic steps" % (m, nn, jj, jj % nn, t - jj),
+                       features=F, cost=5, encodes=X_ENC))
+    for (n, jj, t, c) in ((1, 1, 3, 2), (2, 2, 4, 5), (3, 3, 5, 40), (3, 1, 4, 30), (4, 2, 5, 200)):
+        j.append(X("c13_smm", {"n": n, "j": jj, "t": t, "mode": "fp", "max_paths": 400000},
+                   "SMM length %d (fp mode: every order pattern incl. ties and +-0): snapshot after %d steps; the hand-written Deserialize (re-sort with total_cmp, middle indices) restores an instance whose peek and %d further outputs are bit-identical" % (n, jj, t - jj),
+                   features=F, cost=c, tier="q" if c <= 60 else "t", core=c <= 60, encodes=X_ENC))
+    for n in (0, 1, 2, 3, 4):
+        for idx in sorted(set([0, 1, n - 1, n, n + 1, 255]) - set([-1])):
+            j.append(X("c13_window_adversarial", {"n": n, "idx": idx}, "serialized Window<ValueType> {buf: %d symbolic values, index: %d}: accepted iff index < len or it is the serialized empty window (0 values, index 0); an accepted window has that length, oldest-first order from index, push returns the oldest" % (n, idx),
+                       features=F, cost=1, encodes=X_ENC[:1]))
+    for ind in c09.INDICATORS:
+        j.append(X("c13_indicator", {"kind": ind, "j": 2, "t": 3, "max_paths": 20000}, "%s (default configuration): snapshot of the instance after 2 valid symbolic candles; original and restored instance return bit-identical values and equal signals on the next candle" % ind,
+                   features=F, cost=15, timeout=1200, encodes=X_ENC + ["src/indicators/*.rs: %s::{init,next}" % ind]))
+    return j
+
+
+def c13_all():
+    return c13() + x_jobs()
+
+
 PROP = {
     "id": "C13",
-    "jobs": c13,
+    "jobs": c13_all,
     "bounds": {
         "quick": "Window<u8> round trip at capacity 1..=3 (every phase, symbolic contents, two continuation pushes); adversarial {buf, index} with 0..=3 elements and any u64 index in both field orders, buffers of 254/255 elements; token-level idempotence + field equality for Action, Source, MA, Candle, EMA, RMA, WSMA, Cross*, TR, HeikinAshi, CollapseTimeframe, Renko and all 36 indicator configuration structs",
         "thorough": "as quick plus Window<u8> capacity 4, 5 and 8, IndicatorResult, DMA/DEMA/TMA/TEMA/TSI, buffers of 256/300 elements, u8-element buffers of 254/255 (best effort), CollapseTimeframe holding a candle",
